@@ -483,6 +483,25 @@ func continuations(m *lib.Model[*sys], s0 *sys, backoff time.Duration, tier stri
 			}
 		}
 	}
+	// (d) re-configuring a server to exactly the weight the rebalancer has currently given it is still a change of
+	// its configured weight: all configured weights are restored at once, and later convergence aims at the new one
+	{
+		w0 := s0.weights()
+		for _, i := range mem {
+			if w0[i] == s0.configured[i] || w0[i] <= 0 {
+				continue
+			}
+			s, _ := m.Build(hist)
+			if err := s.upsert(i, w0[i]); err != nil {
+				break
+			}
+			rep.Count("reconfigure_to_effective_weight_continuations")
+			for _, v := range s.afterMembershipChange(fmt.Sprintf("Upsert(s%d,%d) (its effective weight)", i+1, w0[i])) {
+				rep.Violate(v.key+":reconfigured-to-effective-weight", v.detail, what(fmt.Sprintf("Upsert(s%d,%d)", i+1, w0[i])))
+			}
+			break // one member per state is enough: every adjusted state is visited
+		}
+	}
 	// (b) once ratings stop differing the weights return to the configured proportions within six adjustments
 	s, _ := m.Build(hist)
 	var eq [nServers]float64
@@ -503,9 +522,9 @@ func continuations(m *lib.Model[*sys], s0 *sys, backoff time.Duration, tier stri
 }
 
 func Run(tier string, sh lib.Shard, rep *lib.Report) {
-	rep.Rule = "BFS to FIXPOINT (relative-time keys; balancer rotation position and scripted inputs projected out) over Req(ratings in {0,0.4,1}^3, readiness)/Advance/Upsert/Remove on the real Rebalancer(RoundRobin) with scripted meters; invariants on every transition, two bounded-liveness continuations and a non-finite-rating probe (NaN next to a real outlier) from every reachable state; non-trivial = adjustments observed"
+	rep.Rule = "BFS to FIXPOINT (relative-time keys; balancer rotation position and scripted inputs projected out) over Req(ratings in {0,0.4,1}^3, readiness)/Advance/Upsert/Remove on the real Rebalancer(RoundRobin) with scripted meters; invariants on every transition, two bounded-liveness continuations a non-finite-rating probe (NaN next to a real outlier) and a reconfigure-to-the-effective-weight probe from every reachable state; non-trivial = adjustments observed"
 	rep.Assume("A2", "projection of the round-robin iterator: membership and weights do not read it")
-	rep.Require("adjustments", "membership_changes", "persistent_outlier_continuations", "convergence_continuations", "persistent_outlier_others_at_cap", "non_finite_rating_continuations")
+	rep.Require("adjustments", "membership_changes", "persistent_outlier_continuations", "convergence_continuations", "persistent_outlier_others_at_cap", "non_finite_rating_continuations", "reconfigure_to_effective_weight_continuations")
 	backoffs := []time.Duration{time.Second, 10 * time.Second}
 	for _, b := range backoffs {
 		m := model(b, tier)
